@@ -26,7 +26,7 @@ META = {
     "design_ref": "DESIGN.md §4 C06, §3 R-bind",
 }
 
-FAMILIES = ("plain", "explicit", "pykw")
+FAMILIES = ("plain", "explicit", "pykw", "selfref")
 
 
 def family_param_lists(fam, nmax, quick=False):
@@ -34,10 +34,16 @@ def family_param_lists(fam, nmax, quick=False):
         return list(G.plain_param_lists(nmax, earlier="prev" if quick else "all"))
     if fam == "explicit":
         return list(G.EXPLICIT_PARAM_LISTS)
+    if fam == "selfref":
+        return list(G.SELFREF_PARAM_LISTS)
     return list(G.PYKW_PARAM_LISTS)
 
 
-def call_list(params, quick):
+def call_list(params, quick, fam="plain"):
+    if fam == "selfref":
+        # same call shapes, plus a call block whose own parameters have self/later-naming defaults
+        return list(G.calls_for(params, max_pos=4, seqs=G.QUICK_SEQS, empty_map=False,
+                                forms=("expr", "call0", "callx", "callv")))
     if quick:
         return list(G.calls_for(params, max_pos=4, seqs=G.QUICK_SEQS, empty_map=False))
     return list(G.calls_for(params))
@@ -58,7 +64,7 @@ def _py_call(mod, call):
     pos, kw, mp, form = G.python_args(call)
     kws = list(kw)
     if form is not None:
-        kws.append(("caller", mod.cb0 if form == "call0" else mod.cbx))
+        kws.append(("caller", getattr(mod, G.CB_MACRO[form])))
     # the same call written in Python: m(*pos, k=v, ..., **map)
     first = dict(kws)
     if mp is None:
@@ -87,7 +93,7 @@ def _script_python(sig, call):
     pos, kw, mp, form = G.python_args(call)
     kwsrc = "".join(f", {k}={v!r}" if k.isidentifier() and k != "class" else f", **{{{k!r}: {v!r}}}" for k, v in kw)
     if form is not None:
-        kwsrc += ", caller=mod." + ("cb0" if form == "call0" else "cbx")
+        kwsrc += ", caller=mod." + G.CB_MACRO[form]
     if mp is not None:
         kwsrc += ", **" + repr(dict(mp))
     args = ", ".join(repr(x) for x in pos)
@@ -104,7 +110,7 @@ def shard(arg) -> core.Part:
     p = core.Part()
     plists = [pl for pl in family_param_lists(fam, 4, quick) if names_of(pl) == names]
     sigs = list(G.signatures(plists))
-    calls = call_list(plists[0], quick)[lo:hi]
+    calls = call_list(plists[0], quick, fam)[lo:hi]
     env = jinja2.Environment()
     mods = []
     for sig in sigs:
@@ -140,7 +146,7 @@ def shard(arg) -> core.Part:
             want = G.ref_call(sig, call)
             # route "template": what Template.render does, minus the traceback rewriting of failures
             try:
-                got_t = ("ok", "".join(rf(newctx({"m": mod.m, "cbx": mod.cbx}))))
+                got_t = ("ok", "".join(rf(newctx({"m": mod.m, "cbx": mod.cbx, "q": "OUTq", "r": "OUTr"}))))
             except Exception as e:  # noqa: BLE001
                 got_t = ("exc", type(e).__name__)
             try:
@@ -192,7 +198,7 @@ def plan(quick):
                 seen.append(ns)
                 groups.append((fam, ns, pl))
     for fam, ns, pl in groups:
-        ncalls = len(call_list(pl, quick))
+        ncalls = len(call_list(pl, quick, fam))
         nsig = sum(1 for q in family_param_lists(fam, nmax, quick) if names_of(q) == ns) * 12
         inline_k = 1 if len(ns) <= 1 else (151 if quick else 61)
         # aim at shards of comparable work: calls x signatures
@@ -215,11 +221,13 @@ def run(ctx: core.Ctx):
         "a keyword naming a parameter that was already filled positionally is an unconsumed keyword (docs: 'All unconsumed "
         "keyword arguments are stored in kwargs'): kwargs if the body uses it, else TypeError",
         "only the exception class is compared for failing calls, not the message",
+        "CALIBRATED (docs silent): a default that names its own parameter or a later parameter sees that name as a local of "
+        "the call — undefined unless the caller supplied the later parameter; an outer variable of the same name is not consulted",
         "route 'template' shares one Environment and compiled call templates inside a worker; routes 'python'/'inline' use a fresh Environment per signature / per case",
     ]
     ctx.pmap(shard, shards)
     ctx.cov["bounds"] = {"max_parameters": nmax, "max_defaults": 3, "max_positional": 4 if ctx.quick else 5, "max_keywords": 4,
                          "quick_reductions": bool(ctx.quick), "families": list(FAMILIES),
-                         "call_forms": ["expr", "call0", "callx", "kwcb"]}
+                         "call_forms": ["expr", "call0", "callx", "kwcb", "callv (selfref family)"]}
     ctx.cov["signatures"] = ctx.counters.get("signatures", 0)
     ctx.cov["signature_x_call"] = ctx.counters.get("calls", 0)
